@@ -127,6 +127,17 @@ claim("C11", "fault_enumeration",
       "fault enumeration over call sites with trace validation against the TLA+ reference (Stepper.tla) "
       "by TLC; programs are TLC-generated behaviours of ProgGen.tla")
 
+claim("C16", "model_checking",
+      "pairs of builder programs (TLC-generated, overlapping temporaries, flags and statement ids) are fused "
+      "by the real fuse_two_dags under four renaming predicates; TLC checks the fused statements against a "
+      "witness (unique ids, dependencies intact, renaming a consistent injective function incl. guards, renamed "
+      "exactly as asked) and executes the fused phase in every admissible order x guard valuation requiring each "
+      "method's persistent results to equal what its own statements produce",
+      "trusted: witness construction and the exporter of variable occurrences/skeletons; dynamic part only for "
+      "pairs without non-assignments and with disjoint persistent footprints",
+      "TLA+ contract specs (Fuse.tla static, SchedGroups.tla over Sched.tla dynamic) model-checked by TLC over "
+      "statements exported from the real fuse_two_dags; programs are TLC-generated ProgGen behaviours")
+
 NOT_YET = "check not built yet (work in progress, see DESIGN.md section 11)"
 NOT_APPLICABLE = {}
 
